@@ -141,6 +141,11 @@ static std::vector<Hist> histories(){
             addh(t3, nm + ":refine", cfg, "load:3 @batch:40 refsurp:1,0,-1 load:3 refsurp:1,3,-1 load:3 refsurp:1,4,0 load:3 refsurp:1,1,-1 load:3 refsurp:1,2,1 load:3 @hsparse:70 @hsparsestatic:33 @hdense:20 @quad @interp @integrate @diff @diffw @inth");
             addh(std::max(t3, d == 3 ? 1 : 0), nm + ":construct", cfg, "load:3 begin cand:0,0 deliver:5,0 deliver:1,1 cand:1,3 deliver:0,0,0,0,0 finish @batch:40 refsurp:1,3,-1,2,0,1 refsurp:3,4,0,1,0,1 merge @remove:0 @remove:7 @copy @batch:20");
         }
+        // incomplete hierarchies (points without some of their parents): in 3-D and above loadNeededValues() must notice them and leave the Kronecker algorithm
+        if (d == 3) for(auto &lp : lps) if (lp.order == 1 || lp.order == 2){
+            std::string cfg = std::string("fam=localp;rule=") + lp.rule + dd + ";depth=1;type=level;order=" + std::to_string(lp.order);
+            addh((std::string(lp.rule) == "localp" && lp.order == 1) ? 0 : 1, std::string("localp:") + lp.rule + ":o" + std::to_string(lp.order) + ":3d:incomplete", cfg, "load:8 refsurp:1,0,-1 load:8 refsurp:1,0,-1 load:8 refsurp:1,0,-1 load:8 @batch:40 @integrate refsurp:3,0,-1 load:8 @batch:40 @hdense:10");
+        }
         // limits, 0 outputs, domain transform (scaled quadrature weights)
         addh(0, "localp:limits:" + D + "d", "fam=localp;rule=localp" + dd + ";depth=2;type=level;order=1;lim=" + (d == 2 ? "3,2" : "2,3,2"), "load:3 refsurp:0,0,-1 load:3 refsurp:0,3,-1,0,4 load:3 refsurp:0,4,-1 @batch:30 @quad");
         addh(d == 2 ? 0 : 1, "localp:transform:" + D + "d", "fam=localp;rule=localp" + dd + ";depth=3;type=level;order=2;ta=" + (d == 2 ? "-1,0.5" : "-1,0.5,2") + ";tb=" + (d == 2 ? "2,3" : "2,3,5"), "load:0 @quad @batch:30 @interp @integrate @diff refsurp:1,3,-1 load:0 @quad");
